@@ -7,7 +7,7 @@ from vlib.runner import Violation, show
 
 PROPERTY = 'C15'
 LEVEL = 'exploration'
-RULE = ('part "pairs": all 256 single bytes and all 65,536 byte pairs through p8scii_to_unicode -> '
+RULE = ('(the text of every pair and long string must also be the concatenation of its characters\' own spellings) part "pairs": all 256 single bytes and all 65,536 byte pairs through p8scii_to_unicode -> '
         'UTF-8 encode/decode -> unicode_to_p8scii (exhaustive: true for that space), plus table '
         'invariants (256 entries, index == code, spellings distinct, prefix-free); part "long": '
         'Hypothesis byte strings up to 4096 bytes incl. glyph-dense ones; part "file": one-line carts '
@@ -111,11 +111,17 @@ def part_pairs(ctx):
             bs = bytes((a,))
             roundtrip(bs)
             ctx.stats.case(bs, nontriv(bs), None, ['single'])
+    # "each of the 256 characters has a ... spelling": the text of a string is the concatenation of its characters'
+    # spellings, whatever stands next to them
+    single = [roundtrip(bytes((a,))) for a in range(256)]
     n = 0
     for a in range(lo, hi):
         for b in range(256):
             bs = bytes((a, b))
-            roundtrip(bs)
+            u = roundtrip(bs)
+            if u != single[a] + single[b]:
+                raise Violation('the text of %s is %r, but its two characters alone are spelled %r and %r'
+                                % (show(bs), u, single[a], single[b]), {'bytes': bs}, 'spelling-depends-on-context')
             n += 1
             if nontriv(bs):
                 ctx.stats.nontrivial.add(bs)
@@ -134,8 +140,13 @@ def part_long(ctx):
         st.lists(st.sampled_from([0x8e, 0x97, 0x94, 0x83, 0x8b, 0x91, 0x7f, 0x80, 0xff, 0x0a, 0x0d, 0x00]),
                  max_size=200).map(bytes))
 
+    single = [roundtrip(bytes((a,))) for a in range(256)]
+
     def body(bs):
         u = roundtrip(bs)
+        if u != ''.join(single[b] for b in bs):
+            raise Violation('the text of %s is not the concatenation of its characters\' spellings' % show(bs, 80),
+                            {'bytes': bytes(bs)}, 'spelling-depends-on-context')
         ctx.stats.case(bs, nontriv(bs), {'bytes': show(bs, 60), 'text': u[:40]},
                        ['long>=256'] if len(bs) >= 256 else [])
     ctx.hyp('long', strat, body, max_examples=1500 if ctx.quick else 20000)
